@@ -52,8 +52,27 @@ impl Property for C02 {
         };
         st.label(img.class);
         match (&got, &reference) {
-            (Err(_), Err(r)) => {
+            (Err(e0), Err(r)) => {
                 st.label("rejected by both");
+                // the other mapping entry points must refuse it as well, with the same error
+                st.eval(2);
+                match lib(|| (sh.from_mut_bytes_only(buf.slice()), sh.wrapped_only(buf.as_ref()))) {
+                    Err(p) => vfail!("panic", "{}: from_mut_bytes / FlatWrap::from_wrapped_bytes on {} panicked: {}", name, cut(&img.bytes), p),
+                    Ok((m, w)) => {
+                        if m.as_ref().err() != Some(e0) || w.as_ref().err() != Some(e0) {
+                            vfail!(
+                                "routes",
+                                "{}: from_bytes rejects {} with {} ({:?}), but from_mut_bytes gives {:?} and FlatWrap::from_wrapped_bytes {:?}",
+                                name,
+                                cut(&img.bytes),
+                                show_err(e0),
+                                r.kind,
+                                m,
+                                w
+                            );
+                        }
+                    }
+                }
                 if !matches!(r.kind, model::RejKind::Misaligned) && !(n < model::min_size(ty)) {
                     st.nontrivial((&name, &img.bytes, mis), || {
                         json!({"shape": name, "image": cut(&img.bytes), "class": img.class, "verdict": format!("rejected: {:?}", r.kind)})
